@@ -389,6 +389,7 @@ FINDING_ENTRIES = [
     ("retattr.align-call", "declare i8* @f()\n\ndefine void @g() {\n\t%r = call align 8 i8* @f()\n\tret void\n}\n", ["%r = call align 8 i8* @f()"]),
     ("global.metadata-before-align", "@g = global i32 0, !foo !0, align 4\n\n!0 = !{}\n", ["@g = global i32 0, align 4, !foo !0"]),
     ("diderivedtype.dwarf-address-space-zero", '@g = global i32 0, !dbg !0\n!llvm.module.flags = !{!5}\n!llvm.dbg.cu = !{!3}\n!0 = !DIGlobalVariableExpression(var: !1, expr: !DIExpression())\n!1 = distinct !DIGlobalVariable(name: "g", scope: !3, file: !4, line: 1, type: !7, isLocal: false, isDefinition: true)\n!2 = !DIBasicType(name: "int", size: 32, encoding: DW_ATE_signed)\n!3 = distinct !DICompileUnit(language: DW_LANG_C99, file: !4, producer: "x", isOptimized: false, runtimeVersion: 0, emissionKind: FullDebug, globals: !6)\n!4 = !DIFile(filename: "a.c", directory: "/")\n!5 = !{i32 2, !"Debug Info Version", i32 3}\n!6 = !{!0}\n!7 = !DIDerivedType(tag: DW_TAG_pointer_type, baseType: !2, size: 64, dwarfAddressSpace: 0)\n', ['dwarfAddressSpace: 0']),
+    ("typedef.alias-of-pointer-type", "%b = type i8*\n%a = type %b\n\n@g = global %a null\n", ["@g = global"]),
     ("freeze.metadata-attachment", "define i32 @f(i32 %a) {\n\t%r = freeze i32 %a, !x !0\n\tret i32 %r\n}\n\n!0 = !{}\n", ["%r = freeze i32 %a, !x !0"]),
 ]
 
